@@ -406,6 +406,31 @@ def _declared(m, cname, member, touched, accessor="get"):
     return None
 
 
+def _shadowed_by_rewrap(m, cname, member):
+    """Does Python's look-up of ``member`` through the bases of ``cname`` end at a copy which the library put into the ``__dict__`` of
+    a class that does not declare the member itself (a class with invariants inheriting the member from an ancestor whose members
+    carried no invariant checks on calls)?  In the library's design that copy is the only way to get that class's invariants around the
+    inherited member, and it shadows the overrides of classes later in the MRO (finding D15).  Returns the name of that class."""
+    w = m.world
+    cs = w.cspec[cname]
+    bases = ([cs["base"]] if cs.get("base") else []) + list(cs.get("bases2", ()))
+    for b in bases:
+        for k in w.classes[b].__mro__:
+            if member not in k.__dict__:
+                continue
+            nm = _world_name(m, k)
+            if nm is None or any(x["name"] == member for x in w.cspec[nm].get("methods", ())):
+                break
+            for p in k.__mro__[1:]:
+                pn = _world_name(m, p)
+                if pn is not None and any(x["name"] == member for x in w.cspec[pn].get("methods", ())):
+                    if not getattr(p, "__invariants_on_call__", None):
+                        return nm
+                    break
+            break
+    return None
+
+
 def _world_name(m, cls):
     for nm, c in m.world.classes.items():
         if c is cls:
@@ -633,11 +658,13 @@ def execute(scn, want):
                             checks += [("set-pre", es[0], _flat((gset or {}).get("pre") or [])), ("set-post", es[2], _flat((gset or {}).get("post") or []))]
                     for role, e_, g_ in checks:
                         if e_ != g_:
+                            sh = _shadowed_by_rewrap(m, name, ms["name"])
                             violations.append(
                                 {
                                     "rule": "C18.R4",
-                                    "classifier": "lists-differ-from-declaration:%s:%s:%s" % (kind_, role, "missing" if e_ - g_ else "extra"),
-                                    "detail": {"step": si, "class": name, "member": ms["name"], "role": role, "declared": sorted(e_), "introspected": sorted(g_)},
+                                    "classifier": "lists-differ-from-declaration:%s:%s:%s%s"
+                                    % (kind_, role, "missing" if e_ - g_ else "extra", ":inherited-member-copied-into-invariant-class-shadows-later-override" if sh else ""),
+                                    "detail": {"step": si, "class": name, "member": ms["name"], "role": role, "declared": sorted(e_), "introspected": sorted(g_), "copy_held_by": sh},
                                 }
                             )
                             break
